@@ -611,7 +611,15 @@ func (V *Verifier) solveRendered(o *Obligation, pass int) {
 			res = solveResult{st, "z3-new", el, out}
 		} else {
 			done := false
-			if pass == 2 {
+			if pass == 1 && o.Bounded && o.Goal.Op == "=" {
+				if ok, out, el := sympyProve(o.Goal, time.Duration(V.opts.Timeout)*3*time.Second, strings.TrimSuffix(file, ".smt2")+".py"); ok {
+					res = solveResult{"unsat", "sympy", el, out}
+					done = true
+				} else {
+					res.time = el
+				}
+			}
+			if !done && pass == 2 {
 				// retry the deepest instance-only variant on the now quiet machine, racing the portfolio
 				type rr struct {
 					res solveResult
@@ -1280,8 +1288,34 @@ func (V *Verifier) smallModel(file string, r *rendered) map[string]string {
 }
 
 // jetQuery: hypotheses + negated goal + instances of the exp/log axioms for the atoms that occur.
+// denominators collects the divisor terms of real divisions.
+func denominators(t *Term, seen map[*Term]bool, out *[]*Term) {
+	if seen[t] {
+		return
+	}
+	seen[t] = true
+	if t.Op == "/" {
+		*out = append(*out, t.Args[1])
+	}
+	for _, a := range t.Args {
+		denominators(a, seen, out)
+	}
+}
+
 func (o *Obligation) jetQuery() (string, []string, []*Term) {
 	as := append([]*Term{}, o.JetHyp...)
+	if o.Bounded {
+		// bounded cases are about well-conditioned inputs: every divisor that occurs is non-zero
+		var dens []*Term
+		seen := map[*Term]bool{}
+		denominators(o.Goal, seen, &dens)
+		for _, h := range o.JetHyp {
+			denominators(h, seen, &dens)
+		}
+		for _, d := range dens {
+			as = append(as, Neq(d, RealOfInt(0)))
+		}
+	}
 	as = append(as, Not(o.Goal))
 	// goal equalities between log-valued sums are compared through exp (injective)
 	var extra []*Term
